@@ -2,6 +2,7 @@ package main
 
 import (
 	"go/token"
+	"go/types"
 
 	"golang.org/x/tools/go/ssa"
 )
@@ -135,6 +136,10 @@ func condOnEdge(ifi *ssa.If, succIdx int) (x ssa.Value, op token.Token, y ssa.Va
 			c = u.X
 			continue
 		}
+		if v, via := condVia(c, ifi.Block()); via {
+			c = v
+			continue
+		}
 		break
 	}
 	b, isB := c.(*ssa.BinOp)
@@ -165,6 +170,91 @@ func condOnEdge(ifi *ssa.If, succIdx int) (x ssa.Value, op token.Token, y ssa.Va
 		return b.X, op, b.Y, true
 	}
 	return nil, 0, nil, false
+}
+
+// edgeCtx: while a predecessor-sensitive walk (reach) asks its cut predicate about the edges that leave
+// block blk, which it entered from pred, the edge predicates see the branch condition of blk as that walk
+// sees it (condVia).
+var edgeCtx struct{ pred, blk *ssa.BasicBlock }
+
+// condVia: `m := a && b; if m { … }` leaves a join block that is nothing but m = φ(false, b) and the If.
+// Entered from the block that evaluated b, the branch tests b: on either edge the comparison that holds is
+// b's (entered from the other side the φ is a constant, and reach folds the branch). Only this lowering is
+// looked through — no instruction but φs ahead of the If, the operand computed in the predecessor with
+// nothing but the jump after it — so that a fact about a load still speaks of the memory the branch sees.
+func condVia(c ssa.Value, blk *ssa.BasicBlock) (ssa.Value, bool) {
+	phi, ok := c.(*ssa.Phi)
+	if !ok || edgeCtx.blk != blk || phi.Block() != blk || edgeCtx.pred == nil {
+		return nil, false
+	}
+	for _, ins := range blk.Instrs[:len(blk.Instrs)-1] {
+		switch ins.(type) {
+		case *ssa.Phi, *ssa.DebugRef:
+		default:
+			return nil, false
+		}
+	}
+	entries := 0
+	for _, p := range blk.Preds {
+		if p == edgeCtx.pred {
+			entries++
+		}
+	}
+	for i, p := range blk.Preds {
+		if p != edgeCtx.pred || i >= len(phi.Edges) || entries != 1 {
+			continue
+		}
+		v := phi.Edges[i]
+		if _, isK := v.(*ssa.Const); isK {
+			return nil, false
+		}
+		if def, isIns := v.(ssa.Instruction); isIns {
+			if def.Block() != p {
+				return nil, false
+			}
+			for _, later := range p.Instrs[idxIn(p, def)+1:] {
+				switch later.(type) {
+				case *ssa.Jump, *ssa.DebugRef:
+				default:
+					return nil, false
+				}
+			}
+		}
+		return v, true
+	}
+	return nil, false
+}
+
+// zeroTest: the edge a→b establishes that v is zero (isZero) or is not zero (!isZero), in any spelling:
+// v == 0 / v != 0 (also "" and nil), and for a value that cannot be negative v < 1, v <= 0 / v >= 1, v > 0.
+// The length of a string stands for the string (len(s) < 1 is s == "").
+func zeroTest(a, b *ssa.BasicBlock) (v ssa.Value, isZero bool, ok bool) {
+	x, op, y, ok := edgeFact(a, b)
+	if !ok {
+		return nil, false, false
+	}
+	if _, isK := x.(*ssa.Const); isK {
+		x, y, op = y, x, flipOp(op)
+	}
+	k, isInt := constInt(y)
+	switch {
+	case isZeroConst(y) && op == token.EQL:
+		isZero = true
+	case isZeroConst(y) && op == token.NEQ:
+		isZero = false
+	case isInt && nonNegative(x) && ((op == token.LEQ && k == 0) || (op == token.LSS && k == 1)):
+		isZero = true
+	case isInt && nonNegative(x) && ((op == token.GTR && k == 0) || (op == token.GEQ && k == 1)):
+		isZero = false
+	default:
+		return nil, false, false
+	}
+	if lc, isCall := x.(*ssa.Call); isCall && calleeName(lc) == "builtin.len" {
+		if bt, isB := lc.Call.Args[0].Type().Underlying().(*types.Basic); isB && bt.Info()&types.IsString != 0 {
+			x = lc.Call.Args[0]
+		}
+	}
+	return x, isZero, true
 }
 
 // blockIf returns the If terminating b, if any.
@@ -295,6 +385,10 @@ func boolEdge(a, b *ssa.BasicBlock) (v ssa.Value, truth bool, ok bool) {
 		if u, isU := c.(*ssa.UnOp); isU && u.Op == token.NOT {
 			truth = !truth
 			c = u.X
+			continue
+		}
+		if v, via := condVia(c, a); via {
+			c = v
 			continue
 		}
 		// x == false, x != true (a switch over a boolean)
